@@ -8,6 +8,7 @@ import Fir.Model.ProtoView
 import Fir.Model.ProtoGeom
 import Fir.Model.ProtoThreads
 import Fir.Model.ProtoColor
+import Fir.Model.ProtoFit
 open Fir
 
 def handleLine (line : String) : String :=
@@ -33,6 +34,7 @@ def handleLine (line : String) : String :=
     | "ctable" => handleCTable fs
     | "cmap" => handleCMap fs
     | "cmap-reject" => handleCMapReject fs
+    | "fit" => handleFit fs
     | "ping" => "OK pong"
     | _ => "BAD-REQUEST unknown command " ++ cmd
 
